@@ -90,7 +90,9 @@ void Oomd::updateContext() {
     const static double factor300 = std::exp(-interval_.count() / 300.0);
 
     auto& prev_system_ctx = ctx_.getSystemContext();
-    if (prev_system_ctx.vmstat.size() > 0) {
+    // pswpout is absent on kernels built without swap
+    if (prev_system_ctx.vmstat.count("pswpout") &&
+        system_ctx.vmstat.count("pswpout")) {
       auto swapout_bps = (system_ctx.vmstat.at("pswpout") -
                           prev_system_ctx.vmstat.at("pswpout")) *
           4096.0 / interval_.count();
